@@ -914,6 +914,14 @@ impl Check for C12 {
         s.flags.ignore_privilege = false;
         s.ops.clear();
         s.max_ticks = 8000;
+        // no lock holds here: after the virtual run has stopped the real run makes more device calls, so
+        // a hold indexed by call number would hit only the real run (and drop a byte: that is C33's
+        // known finding, not a difference between trap modes)
+        for io in [&mut s.kb, &mut s.disp] {
+            if let IoSpec::Wrapped { hold_calls, .. } = io {
+                hold_calls.clear();
+            }
+        }
         // a store aimed at backed I/O (MCR, KBSR, DDR) is the interesting access violation
         if end == EndKind::AcvStore || end == EndKind::AcvLoad {
             let t = *r.pick(&["xFFFE", "xFE00", "xFE06", "xFFFC", "x0000", "x2FFF", "xFE02"]);
